@@ -165,24 +165,24 @@ func (e trErr) Error() string { return e.msg }
 func trFail(format string, a ...any) { panic(trErr{fmt.Sprintf(format, a...)}) }
 
 type translator struct {
-	p        *trPkg
-	fn       *ast.FuncDecl
-	recvName string             // receiver identifier
-	recvObj  types.Object       // receiver object
-	ptrRecv  bool               // pointer receiver to a struct (fields) vs. scalar value receiver
-	sliceRecv bool              // value receiver of a byte-slice type: recv[k] with constant k is a byte variable
-	bytefld  map[string]bool    // struct fields of type []byte
-	fields   []string           // struct field order
-	fkind    map[string]kindT   // field kinds (translatable ones)
-	used     map[string]bool    // fields referenced
-	mutated  map[string]bool    // fields assigned
-	names    map[types.Object]string
-	taken    map[string]bool
-	kinds    map[types.Object]kindT
-	results  []kindT
-	resNames []types.Object // named results (nil entries when unnamed)
-	errCodes map[string]int
-	errOrder []string
+	p         *trPkg
+	fn        *ast.FuncDecl
+	recvName  string           // receiver identifier
+	recvObj   types.Object     // receiver object
+	ptrRecv   bool             // pointer receiver to a struct (fields) vs. scalar value receiver
+	sliceRecv bool             // value receiver of a byte-slice type: recv[k] with constant k is a byte variable
+	bytefld   map[string]bool  // struct fields of type []byte
+	fields    []string         // struct field order
+	fkind     map[string]kindT // field kinds (translatable ones)
+	used      map[string]bool  // fields referenced
+	mutated   map[string]bool  // fields assigned
+	names     map[types.Object]string
+	taken     map[string]bool
+	kinds     map[types.Object]kindT
+	results   []kindT
+	resNames  []types.Object // named results (nil entries when unnamed)
+	errCodes  map[string]int
+	errOrder  []string
 }
 
 func typeText(fset *token.FileSet, e ast.Expr) string { return nodeText(fset, e) }
